@@ -130,7 +130,7 @@ pub fn n_files(ctx: &Ctx) -> u64 {
         // cut by the wall budget of the thorough tier (a complete sweep of one file takes 1-2 s of one core)
         240
     } else {
-        6
+        14
     }
 }
 
@@ -279,7 +279,7 @@ pub fn base_file(ctx: &Ctx, f: u64) -> BaseFile {
 pub const CLASSES: [&str; 6] = ["bitflip", "bytesub", "field", "region", "truncate+append", "unit-ops"];
 
 pub fn n_cases(ctx: &Ctx) -> u64 {
-    let garbage_batches = if ctx.thorough() { 1200 } else { 24 };
+    let garbage_batches = if ctx.thorough() { 1200 } else { 60 };
     n_files(ctx) * CLASSES.len() as u64 + ctx.scaled(garbage_batches)
 }
 
@@ -351,6 +351,26 @@ fn judge(
                     });
                     if magic_gone {
                         agg.held_tolerated += 1;
+                        return;
+                    }
+                }
+            }
+            // A "corruption" that happens to produce another WELL-FORMED file (a complete member or
+            // stream duplicated, removed or appended: members of a few dozen bytes make a 100-byte
+            // region edit hit exactly one) is nothing a reader can detect - the result is a valid
+            // file with that content. Ground truth: the reference implementation accepts the whole
+            // file (every byte consumed, end of stream reached) and decodes the same bytes.
+            #[cfg(feature = "ref")]
+            {
+                let multi = !matches!(reader, Reader::XzSingle);
+                let r = match base.fmt {
+                    Fmt::Xz => crate::refimpl::decode_xz(corrupted, multi, cap),
+                    Fmt::Lzip => crate::refimpl::decode_lzip(corrupted, true, cap),
+                };
+                if let Ok(ro) = r {
+                    if ro.ended && ro.total_in as usize == corrupted.len() && ro.out == out {
+                        agg.held_tolerated += 1;
+                        crate::case::stat_add("edits_that_gave_a_valid_file_by_the_reference", 1);
                         return;
                     }
                 }
@@ -711,7 +731,7 @@ pub fn run_case(ctx: &Ctx, idx: u64) -> Vec<CaseOut> {
                         format!("{fmtname}|{}|{class}|{_k}", reader.name()),
                         agg.held_err > 0,
                         format!(
-                            "{}: {} corruptions -> {} Err, {} Ok(original), {} tolerated LZIP trailing garbage; e.g. {}",
+                            "{}: {} corruptions -> {} Err, {} Ok(original), {} tolerated (LZIP trailing garbage, or the edit gave another valid file by the reference decoder); e.g. {}",
                             base.name,
                             total,
                             agg.held_err,
